@@ -25,7 +25,7 @@ C12 regress/C12-counter-nonzero-5445450760368162252.json 9fd999f
 C12 regress/C12-counter-nonzero-7603118085941297519.json c385cf7
 C12 regress/C12-counter-nonzero-1182017169601261124.json f49c7eb
 C11 regress/C11-proto-extra-reply-8697307517601547343.json 1791069
-C05 regress/C05-panic-544459143161652846.json 6ab2777
+C05 regress/C05-panic-6448108130810342654.json 6ab2777
 C11 regress/C11-proto-roundtrip-reply-3369049078810884284.json 5896adf
 C07 regress/C07-shutdown-during-gc-3563302134185838027.json 93602c9
 C15 regress/C15-second-route-reload-1201409606913257291.json 93361d6
@@ -35,6 +35,7 @@ C13 regress/C13-stale-collision-registration-2970692947236326030.json 66f2ad3
 C13 regress/C13-get-before-hints-loaded-2337750529945228142.json 55441ef
 C05 regress/C05-gc-vs-hint-loader-3713217905197791706.json 5cb5596
 C13 regress/C13-restart-older-own-value-3023141186284758218.json 2c2f6c6
+C05 regress/C05-bump-vs-gc-7293442130008682800.json 1bafda1
 "
 echo "$pairs" | while read prop file commit; do
   [ -z "$prop" ] && continue
